@@ -138,6 +138,37 @@ theorem no_parking_unlocked_fails :
 theorem traceF19_refused : refusedAt request2reply true traceF19 = some 10 := by
   decide +kernel
 
+/-! ## disconnect_releases_all (statement only) -/
+
+section
+variable {α : Type} [DecidableEq α]
+
+/-- the actions of one `disconnect()` that runs alone: flag, drain `txq`, pop `active_requests`, drain `pending`,
+setting every event on the way -/
+def drainLabels (s : St α) : List (Label α) :=
+  .closeBegin :: (s.txq.flatMap (fun e => [.closeTxq, .closeSet e.id])
+    ++ (s.active.flatMap (fun p => [.closeActive, .closeSet p.2.id])
+    ++ s.pending.flatMap (fun e => [.closePending, .closeSet e.id])))
+
+/-- From every reachable state in which the tx thread does not hold the lock and no other `disconnect` is half way,
+a `disconnect()` can run to its end, and afterwards nothing is queued, filed or parked and every request that was has
+its event set.  NOT PROVED (kept as the statement); the monitors check `notReleased` on every recorded run. -/
+def disconnect_releases_all_statement (tbl : List (α × α)) : Prop :=
+  ∀ s : St α, Reachable tbl true s → s.txTest = none → s.relHold = [] →
+    ∃ s', run tbl true s (drainLabels s) 0 = .ok s' ∧
+      AllReleased s' ((s.txq ++ s.active.map (·.2) ++ s.pending).map (·.id))
+
+end
+
+/-- the statement holds on a concrete reachable state: one request filed and transmitted, one parked, one queued -/
+example : checkRun request2reply true
+    [.put (rd "m:p"), .put (rd "m:p"), .put (rd "m:q"), .txGet, .txTest false, .txApply, .txSend, .txGet, .txTest true, .txApply]
+    (fun s => match run request2reply true s (drainLabels s) 0 with
+      | .ok s' => s'.active.isEmpty && s'.pending.isEmpty && s'.txq.isEmpty && s'.relHold.isEmpty
+                    && [0, 1, 2].all (fun i => s'.released.contains i) && s.active.length == 1 && s.pending.length == 1
+      | .error _ => false) = true := by
+  decide +kernel
+
 /-! ### non-vacuity: a run with two equal-key requests, a parked one, an error reply and an update in between -/
 
 def traceGood : List (Label String) :=
